@@ -258,6 +258,47 @@ def check_case(ctx, case):
                     return res.violate('crash', 'bkl binary died rc=%s' % r.rc, prog=prog)
                 events.append(('fresh-process', m, 'ok' if r.rc == 0 else 'fail', hashlib.sha256(r.out).hexdigest() if r.rc == 0 else None))
             res.ev('fresh_process_evaluations', 3)
+    # (4) a wildcard $parent that matches sibling layers of different formats: the order of the parents decides which one wins
+    if case.get('i', 0) % 6 == 0:
+        wd = ctx.casedir()
+        wrng = random.Random(text + 'w')
+        exts = ['toml', 'yaml', 'json', 'yml', 'json']
+        wrng.shuffle(exts)
+        subs = wrng.sample(['a', 'b', 'c', 'd', 'e'], wrng.randint(2, 4))
+        for k, sname in enumerate(subs):
+            doc = {'who': sname, 'trace': [sname], 'k' + sname: k}
+            with open(os.path.join(wd, 'stem.%s.%s' % (sname, exts[k])), 'w') as f:
+                f.write(ser.write('yaml' if exts[k] == 'yml' else exts[k], [doc]))
+        with open(os.path.join(wd, 'stem.json'), 'w') as f:
+            f.write('{"root": true}')
+        top = prog[0][2] if isinstance(prog[0][2], dict) and wrng.random() < 0.5 else {'top': 1}
+        top = dict(top)
+        top['$parent'] = wrng.choice(['stem.*', ['stem.*']])
+        with open(os.path.join(wd, 'top.json'), 'w') as f:
+            f.write(json.dumps(top))
+        wev = []
+        wops = []
+        for k in range(N + 2):
+            wops += [{'op': 'merge_layers', 'path': os.path.join(wd, 'top.json'), 'parser': k}, {'op': 'output', 'format': 'json', 'parser': k}]
+        respw = ctx.call(wops, res)
+        if respw is None:
+            ctx.cleanup_case(wd)
+            return res.violate('crash', 'worker died (wildcard parents)', top=top)
+        for k in range(N + 2):
+            wev.append(('same-process', k) + event(respw['results'][2 * k:2 * k + 2]))
+        for m in range(3):
+            r = cli([ctx.bin('bkl'), '-f', 'json', 'top.json'], cwd=wd)
+            res.execs += 1
+            if crashed(r.rc, r.err):
+                ctx.cleanup_case(wd)
+                return res.violate('crash', 'bkl binary died rc=%s' % r.rc, top=top)
+            wev.append(('fresh-process', m, 'ok' if r.rc == 0 else 'fail', hashlib.sha256(r.out).hexdigest() if r.rc == 0 else None))
+        ctx.cleanup_case(wd)
+        if len(set((e[2], e[3]) for e in wev)) > 1:
+            return res.violate('determinism', 'a $parent wildcard over sibling layers of different formats gave different results for the same files',
+                               top=top, siblings=['stem.%s.%s' % (sname, exts[k]) for k, sname in enumerate(subs)], events=[list(map(str, e)) for e in wev])
+        res.ev('wildcard_parent_evaluations', len(wev))
+        res.labels.add('wildcard-parents:' + wev[0][2])
     kinds = set((e[2], e[3]) for e in events)
     if len(kinds) > 1:
         return res.violate('determinism', 'the same input gave %d different (status, output) results' % len(kinds), prog=prog, fmt=fmt,
